@@ -498,7 +498,8 @@ def run_big_sparse(case):
             mem = idx[lab == b]
             for _ in range(4):
                 p_ = rng.permutation(mem)
-                rows_l.append(mem); cols_l.append(p_); vals_l.append(rng.randint(5, 40, size=len(mem)))
+                # within-basin counts of a few thousand against single counts across: second eigenvalue ~ 1 - 1e-6
+                rows_l.append(mem); cols_l.append(p_); vals_l.append(rng.randint(500, 4000, size=len(mem)))
             rows_l.append(mem[:3]); cols_l.append(idx[lab == (b + 1) % nb][:3]); vals_l.append(np.ones(3, dtype=int))
         r_, c_, v_ = np.concatenate(rows_l), np.concatenate(cols_l), np.concatenate(vals_l).astype(np.int64)
         rows, cols, vals = np.concatenate([r_, c_]), np.concatenate([c_, r_]), np.concatenate([v_, v_])     # symmetrise
